@@ -60,17 +60,21 @@ CLAIMED['C06'] = dict(
          'over all known versions on the real functions runs alongside as a cross-check (exhaustive, labelled bounded).',
     design='§6 C06')
 CLAIMED['C08'] = dict(
-    text='The real bodies of protocol_earlier/_eq and of the five ConnectionContext predicates are executed over an ABSTRACT '
-         'injective index map (uninterpreted idx), so strict total order, mutual consistency and the S4 contract hold for every '
-         'table initglobals can build, not only the shipped one. Closed obligations over the literal record list: numeric '
-         'order of ordinary protocol numbers, publication order of 2^30-flagged ones, every derived table equals the '
-         'order-preserving duplicate-free projection written independently from the statement.',
-    note='NOT proved: initglobals for arbitrary record lists / run-time extension histories (loop invariants over symbolic '
-         'dicts and lists were not built) - covered by a bounded stand-in only (seeded record lists with colliding ids and '
-         'protocols, extend + re-initialise, compared with the specification projection) plus idempotence on the shipped table; '
-         'injectivity of idx is therefore an assumption of the order proof for tables other than the shipped one. '
-         'Trusted: dict lookup semantics, regex semantics of the release-id pattern.',
-    design='§6 C08')
+    text='(i) The real initglobals is verified for an ARBITRARY record list: the module tables are symbolic containers (z3 '
+         'arrays with ghost first-occurrence / position / last-writer arrays) and both loops carry quantified for-loop '
+         'invariants (43 conjuncts per loop, each its own obligation) stating that after k records every list is the '
+         'order-preserving duplicate-free projection, the index map is the position map, and every ordered dict is the '
+         'last-writer-wins map with keys in first-insertion order; the invariant holds at entry because each table is cleared '
+         'first, so the result depends on the CURRENT records only (idempotence, run-time extension). (ii) The real bodies of '
+         'protocol_earlier/_eq and of the five ConnectionContext predicates are executed over an ABSTRACT injective index map: '
+         'strict total order, mutual consistency and the S4 contract for every table initglobals can build. (iii) Closed '
+         'obligations on the literal record list (numeric / publication order, every derived table equals the projection '
+         'written independently) and on in-place update of the shared table objects after re-initialisation.',
+    note='Trusted: list / dict / OrderedDict semantics as modelled (append, in, item assignment, clear, items order), dict '
+         'lookup, the release-id regex as an uninterpreted predicate on ids. Injectivity of idx used by the order proof is '
+         'conjunct A/B of the initglobals invariant. Bounded alongside: generated record lists with colliding ids/protocols, '
+         'extend + re-initialise, comparison functions re-checked after every rebuild; all pairs of the 369 shipped versions.',
+    design='§6 C08, §10.2')
 
 CLAIMED['C07'] = dict(
     text='For each of the 30 README-listed release protocols and each of the 20 core packets: membership in the right '
